@@ -7,12 +7,17 @@
          entry points hand the same per-sample state (K column, jittered inverse variances, capped K variance) to the worker;
      (b) about the algorithm the worker implements, in matrix form over any field (MathComp): the Woodbury expression the
          worker uses for B^-1 is the inverse of B = C_s + M Lambda M^T, and the determinant identities.
-   What is NOT proved for all inputs (C01_loops_partial below): that the generated loop nests of make_AAinv / make_bBBinv /
-   likelihood_worker compute exactly those matrix expressions.  That step is certified per run and per input by Coq
+     (c) about the generated loop nests (Proofs/KernelLoops.v, all sizes, every initial state): C01_worker_value -- if the
+         inversion oracle returns Y for the matrix Ainv[i,j] = delta_ij / Lambda_i + sum_n M_T[j,n] w_n M_T[i,n] and the LU oracle
+         returns U for B[n,m] = delta_nm / w_n + sum_i M_T[i,n] Lambda_i M_T[i,m], the worker returns
+         -1/2 (chi^2 + sum_i ln(2 pi |U_ii|)) with chi^2 = sum_nm (b_m - y_m) Binv[n,m] (b_n - y_n), b = M mu and
+         Binv[n,m] = delta_nm w_n - sum_ij w_n M_T[i,n] Y[i,j] M_T[j,m] w_m -- sums in the loops' own order, no ring law used.
+   What is NOT proved (partial): the passage from those loop-order sums to the MathComp matrices of (b) (a bigop bridge), the
+   LAPACK oracles' specifications, floating point.  Each generated input is still certified end to end by Coq
    (Model/KernelRun.v check_code bit 1: exact equality of chi^2, |det B|, B, B^-1, a, Ainv with the closed form). *)
 From mathcomp Require Import all_ssreflect all_fingroup all_algebra.
 From Coq Require Import ZArith.
-From TJ Require Import Base.Imp Base.Fops Gen.KernelPyx Proofs.KernelChar Proofs.KernelBridge Proofs.KernelAlg.
+From TJ Require Import Base.Imp Base.Fops Gen.KernelPyx Proofs.KernelChar Proofs.KernelBridge Proofs.KernelAlg Proofs.KernelLoops.
 Set Implicit Arguments. Unset Strict Implicit. Unset Printing Implicit Defensive.
 Import GRing.Theory.
 Local Open Scope ring_scope.
@@ -62,6 +67,14 @@ Theorem C01_same_state_on_all_paths {F} (fo : fops F) (orc : oracles F) (nt nl f
     (forall row s, k_test_worker_one fo orc nt nl fk sK0 P0 mK t0 row s = likelihood_worker fo orc nt nl 1 (prelude row s)).
 Proof. exact (posterior_same_prelude fo orc nt nl fk sK0 P0 mK t0). Qed.
 
+(* ---------- (c) the generated loop nests, all sizes, every initial state ---------- *)
+Theorem C01_worker_value {F} (fo : fops F) (orc : oracles F) (nt nl : nat) (s0 : kst) (Y U : arr2 F) :
+  o_inv orc nl (Atmp_arg fo nt nl s0) = Some Y ->
+  o_lu orc nt (Btmp_arg fo nt nl s0) = Some U ->
+  snd (likelihood_worker fo orc (Z.of_nat nt) (Z.of_nat nl) 0%Z s0)
+  = pvalue fo nt nl (v_M_T s0) (v_s_ivar s0) (v_mu s0) (v_rv s0) Y U.
+Proof. exact (worker_value_marginal fo orc nt nl s0 Y U). Qed.
+
 (* ---------- (b) the algorithm, all dimensions ---------- *)
 Section Alg.
 Variables (F : fieldType) (n k : nat).
@@ -87,5 +100,6 @@ Print Assumptions C01_slots_distinct.
 Print Assumptions C01_slots_miss_offsets.
 Print Assumptions C01_P0_in_days.
 Print Assumptions C01_same_state_on_all_paths.
+Print Assumptions C01_worker_value.
 Print Assumptions C01_woodbury.
 Print Assumptions C01_det.
